@@ -183,7 +183,12 @@ class Judge:
             nser += 1
             cases.append((exp[1], False, 0))
             cases.append((exp[1], True, 0))
-            for d in deviations(exp[1], B if tier != "quick" else (0x00, 0x01, 0xFE, 0xFF)):
+            # single-item bodies and the corpus: every byte value at every position (each decoder sees all 256 values in
+            # every position of a valid message); elsewhere the boundary alphabet
+            wide = info.ident.count(";") == 0 or info.ident.startswith("corpus:")
+            if wide:
+                ctx.counts["full_byte_substitution_bases"] += 1
+            for d in deviations(exp[1], range(256) if wide else B if tier != "quick" else (0x00, 0x01, 0xFE, 0xFF)):
                 cases.append((d, False, 0))
                 if 0xFF in d:
                     cases.append((d, True, 0))
@@ -219,12 +224,13 @@ def run(tier, seed):
         "valid_serializations_deviated": counts["valid_serializations"],
         "skipped_unspecified": counts["skipped_unspecified"],
         "two_deviation_bases": counts["two_deviation_bases"],
+        "full_byte_substitution_bases": counts["full_byte_substitution_bases"],
         "not_loadable": counts["not_loadable"],
         "violations_total": counts["violations_total"],
         "short_string_alphabet": [hex(b) for b in B],
         "exhaustive": True,
         "rule": "per valid program: every byte string over B up to length 2/3 (and over the 5-symbol reduction up to 3/4) "
-        "under entry modes/offsets, plus every prefix, single substitution, single insertion and 1-2 byte suffix of up to "
+        "under entry modes/offsets, plus every prefix, single substitution (all 256 byte values for single-item bodies and the corpus, the boundary alphabet elsewhere), single insertion and 1-2 byte suffix of up to "
         "3/8 valid serializations (thorough: also every pair of substitutions and substitution+truncation - deviation bound 2 - for bodies of at most two items); each (program, bytes, mode, offset) is one distinct case (non-trivial = all but the "
         "empty string per program); compared with M10: value tree incl. nested byte_size, final position, mode, "
         "ValueError exactly where M10 raises it, termination within 3,000,000 reader calls",
